@@ -34,12 +34,36 @@ func ruleForgetSites(c *Ctx, p *Prog, rule string, se *shimEndpoints) {
 					ok = true
 				}
 			}
+			if openRollback(se, i) {
+				ok = true
+			}
 			c.Check(rule, fmt.Sprintf("forget-site#%d:in-close-or-poll", n), p, i.Pos(), ok, "the session is forgotten by the close endpoint or by the poll endpoint itself", "a session is deleted from the table in "+FuncName(fn)+" (a callback / another endpoint): e.g. an error callback that forgets the session when the backend closes makes the next poll answer 'unknown session' instead of delivering the messages already received")
 		})
 	}
 	if n == 0 {
 		c.Unk(rule, "forget-sites", p, se.Create.Pos(), "no connections.Delete found in the shim")
 	}
+}
+
+// openRollback: a Delete in the open handler that takes back the session this very call
+// stored, on a path that ends in an error answer: the session ID was never disclosed to
+// the client, so no later call can name it.
+func openRollback(se *shimEndpoints, del ssa.Instruction) bool {
+	in := se.Inner
+	if in == nil || Owner(del) != in || len(in.Params) == 0 {
+		return false
+	}
+	st := Calls(in, "(*sync.Map).Store")
+	if len(st) != 1 || !Dominates(st[0], del) || !SameValue(Args(CallOf(st[0]))[1], Args(CallOf(del))[1]) {
+		return false
+	}
+	w := ssa.Value(in.Params[0])
+	isErr := func(i ssa.Instruction) bool { s, ok := producesResponse(i, w); return ok && s >= 400 }
+	isOK := func(i ssa.Instruction) bool { s, ok := producesResponse(i, w); return ok && s < 400 }
+	if hit, _ := (&Walk{Target: func(i ssa.Instruction) bool { return IsReturn(i) || isOK(i) }, Avoid: isErr}).FromInstr(del); hit != nil {
+		return false
+	}
+	return true
 }
 
 // ruleParamOnlyPassedTo: parameter idx of fn is only passed on, as argument
@@ -226,6 +250,27 @@ func ruleNoCloseUnderOtherSenders(c *Ctx, p *Prog, rule string, pkgs ...string) 
 				for _, cl := range closers {
 					waits := len(Calls(Owner(cl), "(*sync.WaitGroup).Wait")) > 0
 					for _, s := range senders {
+						// a send in a closure that the closing goroutine defers after it deferred
+						// the close runs on that goroutine before the close (LIFO)
+						if so := Owner(s); so != Owner(cl) && so.Parent() == Owner(cl) {
+							if _, clDeferred := cl.(*ssa.Defer); clDeferred {
+								var dsite *ssa.Defer
+								uses := 0
+								EachInstrRaw(Owner(cl), func(i ssa.Instruction) {
+									if mk, isMk := i.(*ssa.MakeClosure); isMk && mk.Fn == ssa.Value(so) {
+										for _, u := range Refs(mk) {
+											uses++
+											if d, isD := u.(*ssa.Defer); isD && d.Call.Value == ssa.Value(mk) {
+												dsite = d
+											}
+										}
+									}
+								})
+								if dsite != nil && uses == 1 && Dominates(cl, dsite) {
+									continue
+								}
+							}
+						}
 						if Owner(s) != Owner(cl) && !waits {
 							bad = "closed in " + FuncName(Owner(cl)) + " (" + p.Pos(cl.Pos()) + ") while " + FuncName(Owner(s)) + " sends on it (" + p.Pos(s.Pos()) + ")"
 						}
@@ -436,9 +481,28 @@ func keyShape(p *Prog, v ssa.Value, env map[*ssa.Parameter]ssa.Value, depth int)
 		return "", nil, nil, false
 	}
 	v = subst(v)
+	// string concatenation: the shapes of both sides, one after the other
+	if bo, isBO := v.(*ssa.BinOp); isBO && bo.Op == token.ADD {
+		f1, v1, a1, ok1 := keyShape(p, bo.X, env, depth+1)
+		f2, v2, a2, ok2 := keyShape(p, bo.Y, env, depth+1)
+		if !ok1 || !ok2 {
+			return "", nil, nil, false
+		}
+		return f1 + f2, append(v1, v2...), append(a1, a2...), true
+	}
+	if s, isConst := ConstString(v); isConst {
+		return strings.ReplaceAll(s, "%", "%%"), nil, nil, true
+	}
 	call, isCall := v.(*ssa.Call)
 	if !isCall {
+		// a plain string value spliced in as it is
+		if b, isB := v.Type().Underlying().(*types.Basic); isB && b.Info()&types.IsString != 0 && depth > 0 {
+			return "%s", []string{"s"}, []ssa.Value{v}, true
+		}
 		return "", nil, nil, false
+	}
+	if CalleeName(call.Common()) == "strconv.Quote" {
+		return "%q", []string{"q"}, []ssa.Value{subst(call.Call.Args[0])}, true
 	}
 	if CalleeName(call.Common()) == "fmt.Sprintf" {
 		f, isC := ConstString(call.Call.Args[0])
@@ -561,6 +625,19 @@ func ruleCacheKeysByUse(c *Ctx, p *Prog, rule string) {
 		if kv == nil {
 			c.Unk(rule, key, p, fn.Pos(), "no memcache key found in "+m.name+" (Item.Key / Codec.Get key)")
 			continue
+		}
+		// the key travels through a shared new helper (cacheObject(ctx, key, obj)): take the
+		// argument of the call in this method
+		for k := 0; k < 3; k++ {
+			prm, isP := kv.(*ssa.Parameter)
+			if !isP || prm.Parent() == fn {
+				break
+			}
+			a := helperParamArgIn(prm, fn)
+			if a == nil {
+				break
+			}
+			kv = a
 		}
 		format, verbs, args, ok := keyShape(p, kv, map[*ssa.Parameter]ssa.Value{}, 0)
 		wantB, wantR := P(fn, 2)+".BackendID", P(fn, 2)+".RequestID"
@@ -791,7 +868,18 @@ func ruleOnlyWrappedBy(c *Ctx, p *Prog, rule string) {
 				bad = "passed to / called by " + n + " at " + p.Pos(x.Pos())
 			case *ssa.MakeClosure:
 				bad = "captured by the closure " + FuncName(x.Fn.(*ssa.Function)) + " at " + p.Pos(x.Pos())
+			case *ssa.Extract:
+				visit(x, depth+1)
 			case *ssa.Return:
+				// returned by a new constructor helper: continue at its call sites
+				if info := helperOf(x.Parent()); info != nil && x.Parent() != hp {
+					for _, site := range info.sites {
+						if sv, isV := site.(ssa.Value); isV {
+							visit(sv, depth+1)
+						}
+					}
+					continue
+				}
 				bad = "returned unwrapped at " + p.Pos(x.Pos())
 			}
 		}
